@@ -46,6 +46,20 @@ fn file_seq(name: &str) -> u64 {
         .unwrap_or(0)
 }
 
+/// Writer id of an encoded entry: the registry of pre-encoded entries, or (node-level runs, where the
+/// node stamps the delta itself) the key name "nk<id>" of the decoded delta.
+fn ident(registry: &HashMap<Vec<u8>, u64>, data: &[u8]) -> Option<u64> {
+    if let Some(w) = registry.get(data) {
+        return Some(*w);
+    }
+    let (e, used) = WalEntry::decode(data)?;
+    if used != data.len() {
+        return None;
+    }
+    let d = e.to_delta().ok()?;
+    d.key.strip_prefix("nk").and_then(|s| s.parse().ok())
+}
+
 fn recover_image(files: &BTreeMap<String, Vec<u8>>, registry: &HashMap<Vec<u8>, u64>) -> Value {
     let r = catch(|| {
         let st = InMemoryWalStore::new();
@@ -62,7 +76,7 @@ fn recover_image(files: &BTreeMap<String, Vec<u8>>, registry: &HashMap<Vec<u8>, 
         Ok(Ok(entries)) => {
             let ids: Vec<Value> = entries
                 .iter()
-                .map(|e| match registry.get(&e.encode()) {
+                .map(|e| match ident(registry, &e.encode()) {
                     Some(w) => json!(w),
                     None => json!(0), // not one of the appended entries
                 })
@@ -91,6 +105,11 @@ impl Inner {
 }
 
 impl ScriptedWalStore {
+    /// what a crash would leave right now: the fsynced prefix of every file
+    pub fn crash_image(&self) -> BTreeMap<String, Vec<u8>> {
+        let g = self.inner.lock().unwrap();
+        g.files.iter().map(|(n, f)| (n.clone(), f.data[..f.synced].to_vec())).collect()
+    }
     pub fn new(script: HashMap<usize, String>, crash_check: bool) -> Self {
         ScriptedWalStore {
             inner: Arc::new(Mutex::new(Inner { script, crash_check, ..Default::default() })),
@@ -114,8 +133,8 @@ impl WalFileWriter for ScriptedWriter {
         let (kind, w) = if data.len() == 16 && &data[0..4] == b"RWAL" {
             ("hdr", 0)
         } else {
-            match g.registry.get(data) {
-                Some(w) => ("ent", *w),
+            match ident(&g.registry, data) {
+                Some(w) => ("ent", w),
                 None => ("alien", 0),
             }
         };
